@@ -246,10 +246,14 @@ def success_ways(PC, v, depth=0):
 
 
 class PathConds:
-    def __init__(self, prog, sl, limit=3000):
+    def __init__(self, prog, sl, limit=3000, scope=None):
+        # scope: the paths of the functions of one validator region.  A crate-private helper shared by several validators
+        # (`parse_ascii_digits` called by BuildpackVersion's and by BuildpackApi's try_from) is then reached only through
+        # its call sites inside that region: what the *other* validator tests in front of its call says nothing here
         self.prog = prog
         self.sl = sl
         self.limit = limit
+        self.scope = scope
         self._cache = {}
         self._bpaths = {}
         self._ctx = {}
@@ -641,6 +645,8 @@ class PathConds:
         if fn.vis == 'pub' or fn.kind not in ('Fn', 'AssocFn') or fn.impl_trait:
             return [()]
         refs = self.prog.callers().get(fn.path, [])
+        if self.scope is not None:
+            refs = [cs for cs in refs if cs.fn.path in self.scope]
         sites = [cs for cs in refs if not cs.indirect and cs.name == fn.path and cs.fn.path != fn.path]
         if not sites or len(sites) != len(refs):
             return [()]
@@ -669,7 +675,7 @@ class PathConds:
         if lp is None:
             lp = self.dominating(fn, bb)
         ctx = self.context(fn)
-        if ctx == [()]:
+        if ctx == [()] and not self._ctx_args.get(fn.path):
             return lp
         if len(lp) * len(ctx) > self.limit:
             ctx = [()]
@@ -681,20 +687,26 @@ class PathConds:
         out = []
         for c, m in zip(ctx, maps):
             for p in lp:
-                extra = []
+                extra, dead = [], False
                 for l in p:
                     sv = subst(l.value, m, self.sl)
                     if sv == l.value:
                         continue
                     if l.kind == 'bool':
                         r = self.bool_literal(sv, l.outcome)
+                        if r is False:
+                            # the site passes a constant that decides this branch the other way (`helper(s, false)` with
+                            # `if allow_leading_zeros { .. }` inside): this way through the body is not taken from this site
+                            dead = True
+                            break
                         if isinstance(r, Lit):
                             extra.append(r)
                         elif isinstance(r, tuple) and len(r[1]) == 1:
                             extra.extend(r[1][0])
                     else:
                         extra.append(peel_variant(Lit(l.kind, sv, l.outcome)) if l.kind == 'variant' else Lit(l.kind, sv, l.outcome))
-                out.append(tuple(c) + tuple(p) + tuple(extra))
+                if not dead:
+                    out.append(tuple(c) + tuple(p) + tuple(extra))
         return out
 
 
@@ -1227,6 +1239,8 @@ def payloads(sl, v, depth=0):
         return {v[3][0][1]} if len(v[3]) == 1 else {('unknown', 'agg')}
     if v[0] == 'call' and v[2]:
         n, a = v[1], v[2]
+        if n.endswith('FromResidual::from_residual'):
+            return set()    # `x?` leaving with the failure of x: None / Err, no success payload
         if n in ('std::result::Result::<T, E>::ok', 'std::option::Option::<T>::ok_or', 'std::option::Option::<T>::ok_or_else',
                  'std::result::Result::<T, E>::map_err', 'std::option::Option::<T>::filter'):
             return payloads(sl, a[0], depth + 1)
@@ -2636,3 +2650,169 @@ def display_pieces_seq(prog, sl, dsp):
         text = strip(e.args[0] if e.kind == 'FMTSHOW' else e.args[1])
         out.extend(text[1] if text[0] == 'fmt' else [text[1]] if text[0] == 'const' and isinstance(text[1], str) else [text])
     return out
+
+
+# ==== robustness round 5 ==============================================================================================
+# Validation *after* the parse: `s.parse::<u64>().ok().filter(|n| n.to_string() == s)` accepts s exactly when s is the
+# canonical decimal rendering of a u64 — all ASCII digits, no sign, no redundant leading zero (u64's Display never writes
+# either) — which is the conjunction of the digits-only test and the leading-zero rejection in front of the parse.
+# The obligations are then stated on the ways the validator stage *yields* a number instead of the ways to the parse.
+
+_BORROWS = ('std::string::String::as_str', 'std::ops::Deref::deref', 'std::convert::AsRef::as_ref', 'std::borrow::Borrow::borrow',
+            'std::clone::Clone::clone', 'std::borrow::ToOwned::to_owned')
+
+
+def _def_call(fn, op, depth=0):
+    """the call whose result operand `op` of fn is (a borrow / move of), followed through single assignments and borrowing
+    conversions (as_str, deref); None when it is not one call's result"""
+    pl = op_place(op)
+    if pl is None or depth > 8:
+        return None
+    if any(x != '*' for x in pl[1:]):
+        return None
+    ds = fn.whole_defs(pl[0])
+    if len(ds) != 1 or fn.partial_defs(pl[0]):
+        return None
+    d = ds[0]
+    if d[0] == 'call':
+        c = d[3]
+        if (c.decl or c.name or '') in _BORROWS and len(c.args) == 1:
+            return _def_call(fn, c.args[0], depth + 1)
+        return c
+    if d[0] == 'stmt':
+        rv = d[3]
+        if rv['r'] == 'use':
+            return _def_call(fn, rv['o'], depth + 1)
+        if rv['r'] == 'ref':
+            return _def_call(fn, {'c': rv['p']}, depth + 1)
+    return None
+
+
+def _peel_payload(n):
+    """(call value, was a success payload taken?) behind unwrap and payload-keeping adapters"""
+    taken = False
+    for _ in range(12):
+        if n[0] == 'unwrap' and len(n) == 2:
+            n, taken = n[1], True
+            continue
+        if n[0] == 'call' and (n[1] in _PAYLOAD_KEEPING or n[1] == 'std::option::Option::<T>::filter') and n[2]:
+            n = n[2][0]
+            continue
+        break
+    return n, taken
+
+
+def roundtrip_literal(PC, l, parsed, pcall):
+    """literal l decides `u64::to_string(n) == parsed` with n the success payload of the integer parse `pcall` of `parsed`
+    (either operand order, `!=` negated, `format!("{}", n)` for to_string): the outcome of that equality, else None.
+    The slicer reads to_string as transparent, so that the rendering really is u64's plain Display is checked on the MIR
+    operand of the comparison."""
+    prog, sl = PC.prog, PC.sl
+    if l.kind != 'bool':
+        return None
+    v, oc = norm_bool(sl, l.value, l.outcome)
+    if not (v[0] == 'call' and v[1].rsplit('::', 1)[-1] == 'eq' and len(v[2]) == 2):
+        return None
+    ce = call_of(prog, v)
+    if ce is None or len(ce.args) != 2:
+        return None
+    for ni in (0, 1):
+        num, txt = v[2][ni], v[2][1 - ni]
+        if not same(txt, parsed):
+            continue
+        plain_fmt = False
+        sn = strip(num) if num[0] != 'unwrap' else num
+        if sn[0] == 'fmt' and len(sn[1]) == 1 and not isinstance(sn[1][0], str):
+            num, plain_fmt = sn[1][0], True
+        core, taken = _peel_payload(num)
+        pc = call_of(prog, core) if core[0] == 'call' else None
+        if not taken or pc is None or pc.fn is not pcall.fn or pc.bb != pcall.bb:
+            continue
+        if plain_fmt:
+            if not fmt_conversions(prog, ce.fn):
+                return oc
+            continue
+        tc = _def_call(ce.fn, ce.args[ni])
+        if tc is not None and tc.full == '<u64 as std::string::ToString>::to_string':
+            return oc
+    return None
+
+
+def yield_ways(PC, g):
+    """the ways the validator stage g (-> Option<u64> / Result<u64, _>) yields Some / Ok: the paths to a `Some(..)`
+    construction, and for a result produced by combinators (`r.ok().filter(p)`, `c.then(..)`) the paths to that call joined
+    with the ways its value is a success (success_ways).  None when the results of g are not all of these forms."""
+    sl = PC.sl
+    if g.partial_defs(0):
+        return None
+    live = g.reachable(0)
+    out = []
+    for d in g.whole_defs(0):
+        if d[1] not in live:
+            continue
+        if d[0] == 'stmt' and d[3]['r'] == 'agg' and d[3].get('variant') in ('Some', 'Ok', 'None', 'Err'):
+            if d[3].get('variant') in ('Some', 'Ok'):
+                out.extend(tuple(p) for p in PC.paths(g, d[1]))
+        elif d[0] == 'call' and (d[3].decl or '').endswith('FromResidual::from_residual'):
+            continue
+        elif d[0] == 'call':
+            ways = success_ways(PC, sl._call_value(g, d[3], set(), 0))
+            if ways is None:
+                return None
+            out.extend(tuple(p) + tuple(w) for p in PC.paths(g, d[1]) for w in ways)
+        else:
+            return None
+    return out
+
+
+def number_tests(PC, path, is_number_source):
+    """literals of `path` that test a number of the validator: they mention the success payload of a call for which
+    is_number_source(call) holds (an integer parse, a validator stage) — `n < 100`, `n.to_string() == s`"""
+    out = []
+    for l in path:
+        if l.kind == 'variant' and is_source_success(PC.prog, l, is_number_source) is not None:
+            continue        # "the parse / the stage succeeded": carries the number, does not test it
+        hit = False
+        for x in walk(l.value):
+            if isinstance(x, tuple) and x and x[0] == 'unwrap' and len(x) == 2:
+                core, _ = _peel_payload(x)
+                c = call_of(PC.prog, core) if core[0] == 'call' else None
+                if c is not None and is_number_source(c):
+                    hit = True
+                    break
+        if hit:
+            out.append(l)
+    return out
+
+
+def roundtrip_any(PC, l, is_number_source):
+    """roundtrip_literal of l for whichever number source (integer parse / validator stage call) and argument of it the
+    literal compares: the outcome, else None"""
+    for x in walk(l.value):
+        if isinstance(x, tuple) and x and x[0] == 'unwrap' and len(x) == 2:
+            core, _ = _peel_payload(x)
+            c = call_of(PC.prog, core) if core[0] == 'call' else None
+            if c is None or not is_number_source(c):
+                continue
+            for a in core[2]:
+                r = roundtrip_literal(PC, l, a, c)
+                if r is not None:
+                    return r
+    return None
+
+
+def is_source_success(prog, l, is_number_source):
+    """variant literal l decides whether a number source (an integer parse, a validator stage) succeeded — seen through
+    `?` and adapters that keep success and failure apart: True (it did) / False (it did not); None: another decision"""
+    if l.kind != 'variant' or not l.outcome:
+        return None
+    l = peel_variant(l, prog)
+    core, _ = _peel_payload(l.value)
+    c = call_of(prog, core) if core[0] == 'call' else None
+    if c is None or not is_number_source(c):
+        return None
+    if l.outcome <= {'Some', 'Ok'}:
+        return True
+    if l.outcome <= {'None', 'Err'}:
+        return False
+    return None
